@@ -62,6 +62,7 @@ type crashFS struct {
 	// that images holding only a prefix of that write can be built from the keep image.
 	pendingTorn *tornWrite
 	torn        *tornWrite
+	tornSkip    string // why operation `target`, a write, got no description
 
 	crashed    atomic.Bool
 	keep       *vfs.MemFS
